@@ -6,7 +6,7 @@ From Coq Require Import List String NArith ZArith Bool.
 From SV Require Import Bin.LE Bin.Struct Bin.StructProofs Bin.RLE Bin.RLEProofs Bin.FindInsert Bin.FindInsertProofs
   Fmt.BspFormatsSpec Fmt.BspFormatsProofs Fmt.BspVisRow Fmt.BspVisRowProofs Fmt.BspTexStrings Fmt.BspTexStringsProofs
   Fmt.BspRecords Fmt.BspRecordsProofs Fmt.VmfText Fmt.BspEntLump Fmt.BspEntLumpProofs Fmt.BspDedup Fmt.BspDedupProofs Fmt.BspFlagSplit Fmt.BspFlagSplitProofs
-  Fmt.BspOverlayRec Fmt.BspOverlayRecProofs Fmt.BspWorklist Fmt.BspWorklistProofs.
+  Fmt.BspOverlayRec Fmt.BspOverlayRecProofs Fmt.BspWorklist Fmt.BspWorklistProofs Fmt.BspPhys Fmt.BspPhysProofs.
 Import ListNotations.
 
 (** * struct: unpack inverts pack for every format and every fitting record *)
@@ -337,3 +337,25 @@ Proof. exact wl_entry_snapshot_with_adds_refuted. Qed.
 Theorem c11_rebuild_order_sound : forall order edges, order_ok order edges = true ->
   forall a b, In (a, b) edges -> exists i j, pos_of a order = Some i /\ pos_of b order = Some j /\ (i < j)%nat.
 Proof. exact order_ok_sound. Qed.
+
+(** * Round 4: the PHYSCOLLIDE lump of the brush models *)
+(** Generic over the configuration read from [_lmp_write_bmodels] / [_lmp_read_bmodels] (order of the four header values on
+    either side, sentinel written / compared with, order of the two variable-length sections, NUL terminator / stripping): if
+    it passes [phys_cfg_ok], EVERY list of physics blocks the format can hold (index other than the sentinel, numbers
+    within 32 bits, text not ending in NUL) is written and read back unchanged: model index, every solid byte for byte,
+    the keyvalues text. *)
+Theorem c11_physcollide_roundtrip : forall wo ro ws rs wseg rseg term strip, phys_cfg_ok (wo, ro, ws, rs, wseg, rseg, term, strip) = true ->
+  forall bl, forallb (block_wf ws) bl = true ->
+  exists bs, write_blocks wo ws bl = Some bs /\ read_blocks (S (List.length bl)) ro rs strip bs = Some bl.
+Proof. exact phys_roundtrip. Qed.
+(** Reader takes the number of solids where the writer put the text length: rejected by [phys_cfg_ok]; the block
+    (index 1, one solid of two bytes, text "A") is not read back.  The agreeing configuration passes and the block is well-formed. *)
+Theorem c11_physcollide_swapped_header_refuted :
+  phys_cfg_ok ([HIndex; HSize; HKvLen; HCount], [HIndex; HSize; HCount; HKvLen], (-1)%Z, (-1)%Z, [SSolids; SKvs], [SSolids; SKvs], true, true) = false /\
+  match write_blocks [HIndex; HSize; HKvLen; HCount] (-1)%Z [phys_block] with
+  | Some bs => read_blocks 2 [HIndex; HSize; HCount; HKvLen] (-1)%Z true bs <> Some [phys_block]
+  | None => False
+  end /\
+  phys_cfg_ok ([HIndex; HSize; HKvLen; HCount], [HIndex; HSize; HKvLen; HCount], (-1)%Z, (-1)%Z, [SSolids; SKvs], [SSolids; SKvs], true, true) = true /\
+  forallb (block_wf (-1)%Z) [phys_block] = true.
+Proof. exact phys_swapped_header_refuted. Qed.
